@@ -158,6 +158,9 @@ def execute(case):
                            cum_returns=series(tr['cum_returns']), drawdowns=series(tr['drawdowns']))
     except ImportError as e:
         res['tear'] = {'error': 'ImportError'}
+    except Exception as e:
+        # the tearsheet's figures could not be obtained for a curve the other reporter handles: reported by the oracle
+        res['tear'] = {'error': '%s: %s' % (type(e).__name__, str(e)[:120])}
     # scale invariance: the same curve multiplied by a positive constant
     res['scaled'], _ = real_stats(case, [case['scale'] * x for x in case['equity']])
     return res
@@ -335,6 +338,8 @@ def oracle_c17(case, real):
                     if not close(tbn[key], jb[key]):
                         out.append(dict(what='tearsheet benchmark %s %r differs from JSON %r' % (key, tbn[key], jb[key]), key='reports-benchmark'))
     tr = real.get('tear', {})
+    if 'error' in tr and tr['error'] != 'ImportError':
+        out.append(dict(what='the tearsheet could not report on a curve the JSON export handles: %s' % tr['error'], key='tearsheet-raised'))
     if 'error' not in tr:
         for key in ('sharpe', 'max_drawdown'):
             if not close(tr[key], js[key]):
